@@ -51,35 +51,44 @@ fn value_cells(id: u8) -> Vec<(&'static str, PVal)> {
     v
 }
 
-/// minimal valid carrier of a location with the given property list
-fn carrier(loc: Loc, props: Vec<Prop>, auth_has_method: bool) -> Pkt {
+/// valid carrier of a location with the given property list. `variant` 0 is the minimal packet; variant 1 differs in
+/// everything around the property list that the specification lets vary (a failure reason code, QoS 2 / RETAIN / DUP,
+/// a kept session with credentials, several subscription entries): the verdict on the property list must not depend on it
+fn carrier(loc: Loc, props: Vec<Prop>, auth_has_method: bool, variant: u8) -> Pkt {
     let v = Ver::V5;
+    let alt = variant == 1;
     match loc {
-        Loc::Connect => Pkt::Connect { ver: v, clean: true, keep_alive: 0, client_id: b"c".to_vec(), will: None, user: None, pass: None, props },
+        Loc::Connect => Pkt::Connect { ver: v, clean: !alt, keep_alive: if alt { 60 } else { 0 }, client_id: b"c".to_vec(), will: None, user: if alt { Some(b"u".to_vec()) } else { None }, pass: if alt { Some(b"p".to_vec()) } else { None }, props },
         Loc::Will => Pkt::Connect {
             ver: v,
             clean: true,
             keep_alive: 0,
             client_id: b"c".to_vec(),
-            will: Some(Will { topic: b"w".to_vec(), payload: vec![], qos: 0, retain: false, props }),
+            will: Some(Will { topic: b"w".to_vec(), payload: if alt { b"bye".to_vec() } else { vec![] }, qos: if alt { 2 } else { 0 }, retain: alt, props }),
             user: None,
             pass: None,
-            props: vec![],
+            props: if alt { vec![p_u32(P_SEI, 10)] } else { vec![] },
         },
-        Loc::Connack => Pkt::Connack { ver: v, sp: false, code: 0, props },
-        Loc::Publish => Pkt::Publish { ver: v, dup: false, qos: 0, retain: false, topic: b"t".to_vec(), id: None, props, payload: vec![] },
-        Loc::Puback => Pkt::Ack { ver: v, kind: AckKind::Puback, id: 1, code: Some(0), props: Some(props) },
-        Loc::Pubrec => Pkt::Ack { ver: v, kind: AckKind::Pubrec, id: 1, code: Some(0), props: Some(props) },
-        Loc::Pubrel => Pkt::Ack { ver: v, kind: AckKind::Pubrel, id: 1, code: Some(0), props: Some(props) },
-        Loc::Pubcomp => Pkt::Ack { ver: v, kind: AckKind::Pubcomp, id: 1, code: Some(0), props: Some(props) },
-        Loc::Subscribe => Pkt::Subscribe { ver: v, id: 1, props, entries: vec![(b"a".to_vec(), 0)] },
-        Loc::Suback => Pkt::Suback { ver: v, id: 1, props, codes: vec![0] },
-        Loc::Unsubscribe => Pkt::Unsubscribe { ver: v, id: 1, props, entries: vec![b"a".to_vec()] },
-        Loc::Unsuback => Pkt::Unsuback { ver: v, id: 1, props, codes: vec![0] },
-        Loc::Disconnect => Pkt::Disconnect { ver: v, code: Some(0), props: Some(props) },
+        Loc::Connack => Pkt::Connack { ver: v, sp: false, code: if alt { 0x87 } else { 0 }, props },
+        Loc::Publish => {
+            if alt {
+                Pkt::Publish { ver: v, dup: true, qos: 2, retain: true, topic: b"t/long/topic".to_vec(), id: Some(7), props, payload: b"payload".to_vec() }
+            } else {
+                Pkt::Publish { ver: v, dup: false, qos: 0, retain: false, topic: b"t".to_vec(), id: None, props, payload: vec![] }
+            }
+        }
+        Loc::Puback => Pkt::Ack { ver: v, kind: AckKind::Puback, id: 1, code: Some(if alt { 0x80 } else { 0 }), props: Some(props) },
+        Loc::Pubrec => Pkt::Ack { ver: v, kind: AckKind::Pubrec, id: 1, code: Some(if alt { 0x97 } else { 0 }), props: Some(props) },
+        Loc::Pubrel => Pkt::Ack { ver: v, kind: AckKind::Pubrel, id: 1, code: Some(if alt { 0x92 } else { 0 }), props: Some(props) },
+        Loc::Pubcomp => Pkt::Ack { ver: v, kind: AckKind::Pubcomp, id: 1, code: Some(if alt { 0x92 } else { 0 }), props: Some(props) },
+        Loc::Subscribe => Pkt::Subscribe { ver: v, id: 1, props, entries: if alt { vec![(b"a/#".to_vec(), 0x2E), (b"b".to_vec(), 1)] } else { vec![(b"a".to_vec(), 0)] } },
+        Loc::Suback => Pkt::Suback { ver: v, id: 1, props, codes: if alt { vec![0x80, 2] } else { vec![0] } },
+        Loc::Unsubscribe => Pkt::Unsubscribe { ver: v, id: 1, props, entries: if alt { vec![b"a/#".to_vec(), b"b".to_vec()] } else { vec![b"a".to_vec()] } },
+        Loc::Unsuback => Pkt::Unsuback { ver: v, id: 1, props, codes: if alt { vec![0x11, 0x80] } else { vec![0] } },
+        Loc::Disconnect => Pkt::Disconnect { ver: v, code: Some(if alt { 0x8E } else { 0 }), props: Some(props) },
         Loc::Auth => {
-            // reason 0x18 (continue authentication) needs a method; cells that test the method itself use Success
-            Pkt::Auth { code: Some(if auth_has_method { 0x18 } else { 0x00 }), props: Some(props) }
+            // reasons 0x18 / 0x19 (continue / re-authenticate) need a method; cells that test the method itself use Success
+            Pkt::Auth { code: Some(if auth_has_method { if alt { 0x19 } else { 0x18 } } else { 0x00 }), props: Some(props) }
         }
     }
 }
@@ -201,9 +210,11 @@ pub fn run(ctx: &Ctx) -> Report {
                     let props: Vec<Prop> = (0..count).map(|_| p.clone()).collect();
                     let want = prop_allowed(*id, loc) && (count == 1 || prop_repeatable(*id, loc)) && prop_value_ok(&p);
                     let (props, auth_has_method) = if *id == 21 { (props, false) } else { with_auth_method(loc, props) };
-                    let a = carrier(loc, props, auth_has_method);
-                    let cell = format!("{}({}) in {:?} x{} value={}", name, id, loc, count, vname);
-                    judge(&mut rep, &a, &cell, want, &format!("prop={};loc={:?};count={};value={}", id, loc, count, vname), case);
+                    for variant in [0u8, 1] {
+                        let a = carrier(loc, props.clone(), auth_has_method, variant);
+                        let cell = format!("{}({}) in {:?} x{} value={} carrier={}", name, id, loc, count, vname, variant);
+                        judge(&mut rep, &a, &cell, want, &format!("prop={};loc={:?};count={};value={}{}", id, loc, count, vname, if variant == 1 { ";carrier=alt" } else { "" }), case);
+                    }
                 }
             }
         }
@@ -239,10 +250,12 @@ pub fn run(ctx: &Ctx) -> Report {
                         // the carrier itself would be judged on its method; covered by the single cells
                         continue;
                     }
-                    let pkt = carrier(loc, props, auth_has_method);
-                    let cell = format!("A={}({}) B={}({}) in {:?} list [{}]", na, ia, nb, ib, loc, shape);
-                    rep.hit("T4-verdict-independent-of-neighbour-property");
-                    judge(&mut rep, &pkt, &cell, want, &format!("pair;a={};b={};loc={:?};shape={}", ia, ib, loc, shape), case);
+                    for variant in [0u8, 1] {
+                        let pkt = carrier(loc, props.clone(), auth_has_method, variant);
+                        let cell = format!("A={}({}) B={}({}) in {:?} list [{}] carrier={}", na, ia, nb, ib, loc, shape, variant);
+                        rep.hit("T4-verdict-independent-of-neighbour-property");
+                        judge(&mut rep, &pkt, &cell, want, &format!("pair;a={};b={};loc={:?};shape={}{}", ia, ib, loc, shape, if variant == 1 { ";carrier=alt" } else { "" }), case);
+                    }
                 }
             }
         }
@@ -275,8 +288,9 @@ pub fn run(ctx: &Ctx) -> Report {
         }
         let want = list_allowed(loc, &list);
         let (props, auth_has_method) = with_auth_method(loc, list.clone());
-        let pkt = carrier(loc, props, auth_has_method);
-        let cell = format!("{:?} list {:?}", loc, list.iter().map(|p| p.id).collect::<Vec<_>>());
+        let variant = rng.below(2) as u8;
+        let pkt = carrier(loc, props, auth_has_method, variant);
+        let cell = format!("{:?} list {:?} carrier={}", loc, list.iter().map(|p| p.id).collect::<Vec<_>>(), variant);
         rep.hit("T5-random-list-verdict-equals-spec-table");
         let first_bad = list.iter().find(|p| !prop_allowed(p.id, loc) || !prop_value_ok(p) || (!prop_repeatable(p.id, loc) && list.iter().filter(|q| q.id == p.id).count() > 1)).map(|p| p.id).unwrap_or(0);
         judge(rep, &pkt, &cell, want, &format!("list;loc={:?};first_offender={};len={}", loc, first_bad, list.len()), (2, idx));
